@@ -77,6 +77,7 @@ def offpolicy(tier: str, prop: str) -> list[dict]:
         dict(sac, kind="box", dims=[2], S=4, n=1, T=1, buffer=6, starts=6, batch=6, pfreq=3, autotune=False, stack=["TimeLimit"]),   # gating without autotune
         dict(sac, kind="boxscalar", dims=[4], S=5, n=2, T=2, buffer=8, starts=4, batch=8, pfreq=2, autotune=False, stack=[]),
         dict(sac, kind="box", dims=[2], S=4, n=1, T=2, buffer=6, starts=6, batch=6, pfreq=2, autotune=False, alpha_lr=0.01, stack=["TimeLimit"]),   # explicit alpha_lr must not switch tuning on
+        dict(sac, kind="box", dims=[2], S=4, n=1, T=2, buffer=8, starts=1, batch=4, pfreq=2, autotune=True, stack=["TimeLimit"]),   # warm-up shorter than one batch: the schedule must not wait for a full batch
     ]
     # independence probe (C12): uniformly random behaviour that does not depend on the state, enough steps that two
     # nodes producing the same action stream by chance has probability <= 2^-48
@@ -206,7 +207,7 @@ def ring(tier: str, prop: str) -> list[dict]:
     if prop == "C09":
         return rollout
     if prop == "C12":
-        return [r for r in rollout if r["n"] > 1]   # views of an N-environment rollout: no row may mix environments
+        return [r for r in rollout if r["n"] > 1] + [r for r in replay if r["nodes"] > 1]   # views of an N-environment rollout / joint samples of N per-environment replay buffers
     return replay + rollout
 
 
